@@ -261,6 +261,16 @@ def _deep(fn, nid, depth=0):
     return txt
 
 
+def _def_event_pos(fn, name):
+    """(block, index) of the declaration / assignment event that defines a single-definition local"""
+    for b, i, e, n in fn.events():
+        if n["k"] == "decl" and any(v["name"] == name and "init" in v for v in n["vars"]):
+            return b, i
+        if n["k"] == "bin" and n["op"] == "=" and fn.kids(e) and fn.nodes[fn.kids(e)[0]]["k"] == "ref" and fn.nodes[fn.kids(e)[0]].get("name") == name:
+            return b, i
+    return None
+
+
 # ---------------------------------------------------------------------------------------------------------------
 def nikolaev(ctx):
     SCQ = X + "detail::nikolaev_scq::"
@@ -269,7 +279,7 @@ def nikolaev(ctx):
                   "or a CAS whose desired value carries bit 0 of the expected value (finite evaluation of the desired-value expression)")
     n_writes = 0
     for fn in ctx.facts.fns:
-        if not fn.file.endswith("nikolaev_scq.hpp"):
+        if not fn.file.endswith("nikolaev_scq.hpp") or fn.inlined_helper:
             continue
         for a in fn.atomics():
             if not a["field"].endswith("nikolaev_scq::_tail") or a["kind"] in ("load",):
@@ -293,11 +303,17 @@ def nikolaev(ctx):
                             env_ = {expv: tail}
                             for o in others:
                                 d_ = flow.unique_def(fn, o)
-                                if d_ is not None and fn.nodes[[x for x in range(len(fn.nodes)) if fn.nodes[x]["k"] == "ref" and fn.nodes[x].get("name") == o][0]].get("dk") == "local":
-                                    # a local computed before the retry loop is a STALE snapshot: the expected value may have been refreshed by a failed
-                                    # CAS since (e.g. finalize() set the flag in between), so it is evaluated with the previous, unfinalized tail
+                                is_local = any(fn.nodes[x]["k"] == "ref" and fn.nodes[x].get("name") == o and fn.nodes[x].get("dk") == "local" for x in fn.subtree(kids[2]))
+                                if d_ is not None and is_local:
+                                    # the local is a function of the expected value.  It is FRESH if its definition is re-executed on every way from a failed CAS
+                                    # (which refreshes the expected value) back to the CAS; otherwise it is a STALE snapshot: the tail may have been finalized in
+                                    # between, so it is evaluated with the previous, unfinalized tail
+                                    dpos = _def_event_pos(fn, o)
+                                    cpos = fn.pos().get(e)
+                                    fresh = dpos is not None and cpos is not None and (
+                                        (dpos[0] == cpos[0] and dpos[1] < cpos[1]) or not fn.event_reaches(e, e, removed_blocks={dpos[0]}))
                                     try:
-                                        env_[o] = evalx(fn, d_, {expv: tail - 1, **{p_["name"]: head for p_ in fn.params if p_["name"] != expv}})
+                                        env_[o] = evalx(fn, d_, {expv: tail if fresh else tail - 1, **{p_["name"]: head for p_ in fn.params if p_["name"] != expv}})
                                     except Unknown:
                                         env_[o] = head
                                 else:
@@ -560,7 +576,7 @@ def kfifo(ctx):
                       (X + "kirsch_bounded_kfifo_queue::", ("entry::value", "kirsch_bounded_kfifo_queue::_head", "kirsch_bounded_kfifo_queue::_tail"))):
         n_cas = 0
         for fn in ctx.facts.fns:
-            if not fn.pat.startswith(C):
+            if not fn.pat.startswith(C) or fn.inlined_helper:
                 continue
             for a in fn.atomics():
                 if a["kind"] != "cas":
